@@ -36,6 +36,7 @@ const (
 	retDefer                  // result discarded; continue running defers of the caller frame
 	retTop                    // harness finished
 	retDiscard                // result discarded; advance caller pc (used for go-inline)
+	retRerun                  // result discarded; caller pc unchanged (lazy goroutine run at a blocking point)
 )
 
 type deferRec struct {
